@@ -1787,12 +1787,20 @@ class CryptContext:
     #: secret used for dummy_verify()
     _dummy_secret = "too many secrets"
 
+    #: stand-ins for the context keywords (user name, realm) some schemes cannot hash without
+    _dummy_context_kwds = {"user": "dummy-user", "realm": "dummy-realm"}
+
+    def _dummy_kwds(self):
+        """context keywords for the dummy hash: only those some scheme of this context takes"""
+        wanted = self.context_kwds
+        return {k: v for k, v in self._dummy_context_kwds.items() if k in wanted}
+
     @memoized_property
     def _dummy_hash(self):
         """
         precalculated hash for dummy_verify() to use
         """
-        return self.hash(self._dummy_secret)
+        return self.hash(self._dummy_secret, **self._dummy_kwds())
 
     def _reset_dummy_verify(self):
         """
@@ -1810,7 +1818,7 @@ class CryptContext:
 
         .. versionadded:: 1.7
         """
-        self.verify(self._dummy_secret, self._dummy_hash)
+        self.verify(self._dummy_secret, self._dummy_hash, **self._dummy_kwds())
         return False
 
     def is_enabled(self, hash):
